@@ -166,6 +166,13 @@ def run(ck):
             en = job["policy"]["fault"]["errno"]
             stats["by_errno"][en] = stats["by_errno"].get(en, 0) + 1
             desc = {"job": J.describe(job), "deny": tag, "outcome": r}
+            if res.get("runaway"):
+                # only the sequences the property quantifies over are injected here (single faults, EAGAIN repeated, descriptor
+                # exhaustion from an index on); the driver lifts a fault after 6000 calls of one operation and says so
+                ck.violation("C10: the operation did not end while descriptor-creating calls kept failing: it went on issuing calls until the "
+                             "fault was lifted (does not loop forever)", dict(desc, errno=en, runaway=res["runaway"],
+                                                                                 last_calls=[e_["c"] for e_ in res.get("trace", [])[-12:]]))
+                continue
             if "panic" in r:
                 kf = classify_panic(ck, r["panic"], res.get("trace"))
                 if kf:
